@@ -24,6 +24,35 @@ pub fn has_defaulted_attribute(d: &ADoc) -> bool {
         .unwrap_or(false)
 }
 
+/// the raw DOM view and the merged-text view denote the same XPath data model: no reference, no CDATA section and no
+/// two adjacent character-data items anywhere in element content
+pub fn views_coincide(d: &ADoc) -> bool {
+    use crate::model::adoc::{AElem, ANode};
+    fn ok(e: &AElem) -> bool {
+        let mut prev_text = false;
+        for c in &e.children {
+            match c {
+                ANode::CharRef(_) | ANode::EntRef(_) | ANode::CData(_) => return false,
+                ANode::Text(t) => {
+                    if prev_text || t.is_empty() {
+                        return false;
+                    }
+                    prev_text = true;
+                }
+                ANode::Elem(x) => {
+                    if !ok(x) {
+                        return false;
+                    }
+                    prev_text = false;
+                }
+                _ => prev_text = false,
+            }
+        }
+        true
+    }
+    ok(&d.root)
+}
+
 /// how two node-set dumps differ
 pub fn diff_kind(want: &str, got: &str) -> &'static str {
     let parse = |s: &str| -> Option<Vec<String>> {
@@ -81,6 +110,30 @@ impl Space for DocExprs {
             }
         };
         sink.count("states", 1);
+        // "in the raw view wherever the two coincide": the same expressions on the document parsed without merging
+        let raw: Option<(xml_dom::XmlDocument, XMap)> = if views_coincide(&self.docs[idx as usize]) {
+            match crate::obs::parse_dom(&fx.text, false) {
+                (crate::obs::Parsed::Complete, Some(d)) => match XMap::build(&d, &fx.tree) {
+                    Ok(m) => Some((d, m)),
+                    Err(m) => {
+                        sink.finding(Finding {
+                            sig: format!("raw-view/fixture/{}", m.split(' ').take(3).collect::<Vec<_>>().join("-")),
+                            what: "the raw view of a document without references and CDATA sections differs from the merged-text view".into(),
+                            case: self.describe(idx),
+                            expected: "the same tree in both views".into(),
+                            observed: m,
+                        });
+                        None
+                    }
+                },
+                _ => None,
+            }
+        } else {
+            None
+        };
+        if raw.is_some() {
+            sink.count("raw-view-documents", 1);
+        }
         let abbreviated = Style { abbrev: true, ..Style::default() };
         for (k2, e) in self.exprs.iter().flat_map(|e| [(false, e), (true, e)]).enumerate() {
             let (abbr, e) = e;
@@ -106,6 +159,39 @@ impl Space for DocExprs {
             if let Outcome::Val(v) = &got {
                 if v != "nodes[]" {
                     sink.count("nontrivial", 1);
+                }
+            }
+            // the raw view must give the same answer (only reported when the merged view is right, one root cause once)
+            if let (true, Some((rd, rm))) = (ok, raw.as_ref()) {
+                sink.count("transitions", 1);
+                let got_raw = run_query(rd, &s, &self.bindings, Some((rm, &fx.tree)));
+                sink.count("validated", 1);
+                let same = match (&want, &got_raw) {
+                    (Outcome::Val(a), Outcome::Val(b)) => a == b,
+                    (Outcome::Err(_), Outcome::Err(_)) => true,
+                    _ => false,
+                };
+                if !same {
+                    let kind = match (&want, &got_raw) {
+                        (_, Outcome::Panic(m)) => format!("panic[{}]", panic_site(m)),
+                        (Outcome::Val(w), Outcome::Val(g)) => diff_kind(w, g).to_string(),
+                        _ => "other".to_string(),
+                    };
+                    let feats = xgen::features(e);
+                    let marker = if feats.contains("axis:namespace") && fx.tree.nodes.iter().filter(|n| n.kind == XKind::Elem).count() > 1 {
+                        "ns-nodes-of-several-elements/"
+                    } else if feats.contains("axis:attribute") && has_defaulted_attribute(&self.docs[idx as usize]) {
+                        "dtd-defaulted-attribute-node/"
+                    } else {
+                        ""
+                    };
+                    sink.finding(Finding {
+                        sig: format!("{}raw-view/{}/{}{}", marker, kind, feats, if abbr { "+abbreviated" } else { "" }),
+                        what: format!("query result in the raw view differs from XPath 1.0 and from the merged-text view ({})", kind),
+                        case: format!("{}\non {} (raw view)", s, fx.text),
+                        expected: format!("{:?}", want),
+                        observed: format!("{:?}", got_raw),
+                    });
                 }
             }
             if ok {
@@ -154,7 +240,7 @@ impl Check for C05C {
     }
     fn meta(&self) -> Meta {
         Meta {
-            rule: "documents (8 hand-picked ones with attributes, mixed content, comments, PIs, namespaces, a DTD default, references and CDATA, xml:lang, keyword-named elements; plus every element skeleton up to the bound, bare and with one decoration) x expressions generated from the reference AST grammar: (A) every axis x 9 node tests x 14 predicate lists evaluated from every element, attribute, text, comment, PI and the root; (B) three-step paths with at most k slots (axis / test / predicate) differing from child::*, also below //; (C) unions, filter expressions (P)[n], (P|Q)[n], (P)[n]/Q and (P)[n]//node(), core functions and all comparison operators over a pool of 25 node-set paths, lang(), name()/string()/number() without argument, nested predicates using position() and last() at two levels. Each expression is rendered from its AST, evaluated by xml_xpath::query on the merged-text DOM and by the reference evaluator on the XPath data model built from the abstract document; node-sets must contain exactly the expected nodes, each once, in document order (the order among one element's attributes / namespace nodes is left open); scalars compare exactly. One case = one document (all expressions). Non-trivial = a non-empty result.",
+            rule: "documents (8 hand-picked ones with attributes, mixed content, comments, PIs, namespaces, a DTD default, references and CDATA, xml:lang, keyword-named elements; plus every element skeleton up to the bound, bare and with one decoration) x expressions generated from the reference AST grammar: (A) every axis x 9 node tests x 14 predicate lists evaluated from every element, attribute, text, comment, PI and the root; (B) three-step paths with at most k slots (axis / test / predicate) differing from child::*, also below //; (C) unions, filter expressions (P)[n], (P|Q)[n], (P)[n]/Q and (P)[n]//node(), core functions and all comparison operators over a pool of 25 node-set paths, lang(), name()/string()/number() without argument, nested predicates using position() and last() at two levels. Each expression is rendered from its AST, evaluated by xml_xpath::query on the merged-text DOM (and on the raw DOM of every document in which the two views coincide: no references, CDATA sections or adjacent character data in content) and by the reference evaluator on the XPath data model built from the abstract document; node-sets must contain exactly the expected nodes, each once, in document order (the order among one element's attributes / namespace nodes is left open); scalars compare exactly. One case = one document (all expressions). Non-trivial = a non-empty result.",
             bounds_quick: "8 + 125 documents (skeletons <= 4 elements, bare and with one decoration), k = 1",
             bounds_thorough: "8 + 419 documents (skeletons <= 5 elements, bare and with one decoration), k = 2",
             assumptions: &["trusts mc/src/model/xpath.rs as the reading of XPath 1.0 (DESIGN.md Appendix C)", "no caller namespace bindings here (C10 varies them)"],
